@@ -6,7 +6,8 @@ from .build import VERIF
 
 OUT = os.path.join(VERIF, 'out')
 REPLAY_DIR = os.path.join(OUT, 'replay')
-EVIDENCE_DIR = os.path.join(VERIF, 'evidence')
+# evidence describes runs against /repo itself; runs against another tree (VERIF_REPO: mutation self-test, seeded changes) must not overwrite it
+EVIDENCE_DIR = os.path.join(VERIF, 'evidence') if os.path.realpath(build.REPO) == '/repo' else os.path.join(OUT, 'evidence-other-tree')
 KNOWN = os.path.join(VERIF, 'known_findings.json')
 
 RC_OK, RC_FATAL, RC_INCONCLUSIVE, RC_VIOLATION, RC_ASAN, RC_TSAN = 0, 2, 3, 10, 21, 22
